@@ -268,6 +268,22 @@ def check_graph(g, where, has_dup):  # noqa: C901
                   f"distinct nodes {sum(want.values())}")
         if _has_functions(g):
             counters["counts-not-decided(functions)"] += 1
+            # how often a node inside a function body counts is not pinned down, but the analyses must agree with each
+            # other, and every node of the *top-level* scope (call sites and loopy calls included) is a node of the graph
+            nn_dup, nn = pa.get_num_nodes(g, count_duplicates=True), pa.get_num_nodes(g, count_duplicates=False)
+            if sum(tc_dup.values()) != nn_dup or sum(tc.values()) != nn:
+                V("counts-disagree-with-each-other", f"sum of get_node_type_counts = {sum(tc_dup.values())} / {sum(tc.values())} but "
+                  f"get_num_nodes = {nn_dup} / {nn} (count_duplicates True / False)")
+            multf = pa.get_node_multiplicities(g)
+            if sum(multf.values()) != nn_dup:
+                V("counts-disagree-with-each-other", f"sum of get_node_multiplicities = {sum(multf.values())} but "
+                  f"get_num_nodes(count_duplicates=True) = {nn_dup}", what="multiplicities")
+            top = seen_scope[0] if seen_scope else set()
+            top_want = collections.Counter(type(n) for n in top if not isinstance(n, FunctionDefinition))
+            for ty, k in top_want.items():
+                if tc.get(ty, 0) < k:
+                    V("top-level-nodes-not-counted", f"get_node_type_counts(count_duplicates=False)[{ty.__name__}] = {tc.get(ty, 0)} "
+                      f"but the top-level scope alone has {k} distinct {ty.__name__} node(s)", type=ty.__name__)
         elif pa.get_num_nodes(g, count_duplicates=True) != sum(want_dup.values()):
             V("num-nodes-objects", f"get_num_nodes(count_duplicates=True) = {pa.get_num_nodes(g, count_duplicates=True)}, "
               f"objects {sum(want_dup.values())}")
